@@ -1,4 +1,5 @@
 import GufoSnmp.Model.Timing
+import GufoSnmp.Props.C04
 
 /-! # C18 — a request never outlives its timeout -/
 
@@ -248,6 +249,58 @@ theorem reply_iff (T d start : Nat) (strays : List Arrival) (now : Nat) (r : Arr
       rw [ht'] at ht; cases ht
   · intro h
     exact ⟨_, sync_match T d start strays now r rest hs hr h hst⟩
+
+/-! ## The three kinds of the timing model are the three outcomes of the receive step
+
+`Timing.Kind` abstracts a datagram to reply / stray / garbage. That abstraction is not free-floating: it is
+what `Session.recvOne` (the model the correspondence check ties to `snmpsocket.rs`) does with the datagram in
+the session's state at that moment. -/
+
+open GufoSnmp in
+/-- how the session, in its current state, treats a datagram -/
+def kindOf (C : Ciphers) (s : Session) (dg : Bytes) : Kind :=
+  match (s.recvOne C dg).2 with
+  | .ok (some _) => .reply
+  | .ok none => .stray
+  | _ => .garbage
+
+open GufoSnmp in
+/-- the datagrams of a queue as arrivals that are all in hand at time 0, classified by the state the session is in
+when it gets to them -/
+def arrivalsOf (C : Ciphers) : Session → List Bytes → List Arrival
+  | _, [] => []
+  | s, dg :: rest => ⟨0, kindOf C s dg⟩ :: arrivalsOf C (s.recvOne C dg).1 rest
+
+open GufoSnmp in
+/-- **C18.loop_is_timing_model**: on a queue of datagrams the receive loop of the session model ends the way the
+timing model says (any timeout `T ≥ 1`, processing time 0): it hands a PDU to the conversion layer exactly when the
+timing model delivers, fails with the decoder's error exactly when the timing model reports a decode error, and
+reports an empty queue (`BlockingIOError`, the socket's timeout) exactly when the timing model times out -/
+theorem loop_is_timing_model (C : Ciphers) (op : OpKind) (it : Option GetIter) (T : Nat) (hT : 1 ≤ T) :
+    ∀ (dgs : List Bytes) (s : Session),
+    match asyncRecv T 0 0 0 (arrivalsOf C s dgs) with
+    | .delivered _ => ∃ pdu, (C04.recvPdu C s dgs).1 = some pdu ∧ (s.recvLoop C op it dgs).1 = (toPython op pdu it).1
+    | .timeout _ => (s.recvLoop C op it dgs).1 = .raise .BlockingIOError
+    | .decodeError _ => (C04.recvPdu C s dgs).1 = none ∧
+        ((∃ e, (s.recvLoop C op it dgs).1 = .raise (Gen.pyClass e)) ∨ ∃ w, (s.recvLoop C op it dgs).1 = .panic w)
+  | [], s => by
+    simp only [arrivalsOf, asyncRecv]
+    rfl
+  | dg :: rest, s => by
+    have ih := loop_is_timing_model C op it T hT rest (s.recvOne C dg).1
+    simp only [arrivalsOf, asyncRecv, kindOf, Nat.max_self, Nat.zero_add, Nat.add_zero]
+    rw [if_neg (by omega)]
+    simp only [C04.recvPdu, Session.recvLoop]
+    cases hr : s.recvOne C dg with
+    | mk s' r =>
+      rw [hr] at ih
+      cases r with
+      | ok o =>
+        cases o with
+        | some p => exact ⟨p, rfl, rfl⟩
+        | none => simpa using ih
+      | err e => exact ⟨rfl, Or.inl ⟨e, rfl⟩⟩
+      | panic w => exact ⟨rfl, Or.inr ⟨w, rfl⟩⟩
 
 /-- `k` stray datagrams spaced `T - 1` apart, starting at `from` -/
 def drip (T : Nat) : Nat → Nat → List Arrival
